@@ -145,6 +145,10 @@ struct Sum {
 	wl: u64,
 	maxpeak: u64,
 	reads: u64,
+	hp: u64,
+	hl: u64,
+	seeds: u64,
+	seeds_ok: u64,
 }
 
 pub fn clamp(x: u64) -> u64 {
@@ -204,6 +208,16 @@ pub fn run(space: &Space, bounds: &Bounds, from: usize, to: usize, out: &str, ba
 			s.bytes += len;
 			s.reads += o.res.reads;
 			s.maxpeak = s.maxpeak.max(o.peak);
+			if c.origin["gen"] == "seed" {
+				s.seeds += 1;
+				if o.out == "ok" {
+					s.seeds_ok += 1;
+					if o.peak >= s.hp {
+						s.hp = o.peak;
+						s.hl = len;
+					}
+				}
+			}
 			let pm = if bound == 0 { 0 } else { o.peak * 1000 / bound };
 			if pm >= s.worst_permille {
 				s.worst_permille = pm;
@@ -218,7 +232,7 @@ pub fn run(space: &Space, bounds: &Bounds, from: usize, to: usize, out: &str, ba
 	}
 	for ((t, rd, ver, ct), s) in sums {
 		w.put(&json!({"k": "Sum", "dec": space.targets[t].name, "rd": rd, "ver": ver, "ct": ct, "n": s.n, "ok": s.ok, "err": s.err,
-			"post_ok": s.post_ok, "bytes": s.bytes, "reads": clamp(s.reads), "maxpeak": clamp(s.maxpeak), "wp": clamp(s.wp), "wl": s.wl}));
+			"post_ok": s.post_ok, "bytes": s.bytes, "reads": clamp(s.reads), "maxpeak": clamp(s.maxpeak), "wp": clamp(s.wp), "wl": s.wl, "hp": clamp(s.hp), "hl": s.hl, "seeds": s.seeds, "seeds_ok": s.seeds_ok}));
 	}
 	if !seeds_failed.is_empty() {
 		w.put(&json!({"k": "SeedsFailed", "list": seeds_failed}));
